@@ -41,6 +41,8 @@ extra_dist(files=['d1.txt', 'sub1/u.c'])
 # a header directory of the project that a relative -I of the configured
 # CPPFLAGS also names when bfg9000 is invoked from the source directory
 executable('incuser', ['sub2/v.c'], includes=['include', 'sub1'])
+# a tool looked up by name on the configure-time PATH
+command('usetool', cmd=[system_executable('rec'), 'T'])
 '''
 
 
@@ -134,6 +136,24 @@ def run_project(arg):
             pr, aux = digest_files(p.bld) if rc == 0 else ([], [])
             events.append({'ev': 'Run', 'ctx': c, 'exit': rc, 'primary': pr,
                            'aux': aux, 'out': out[-300:] if rc else ''})
+            if rc == 0 and c['noise'] and not real:
+                # the same saved configuration regenerated under another
+                # ambient environment (a PATH on which another copy of the
+                # tool comes first, other unrelated variables)
+                alt = os.path.join(p.root, 'alt tools')
+                os.makedirs(alt, exist_ok=True)
+                if not os.path.exists(os.path.join(alt, 'rec')):
+                    shutil.copy(os.path.join(BIN, 'rec'),
+                                os.path.join(alt, 'rec'))
+                env2 = dict(env)
+                env2['PATH'] = alt + ':' + env['PATH']
+                env2['ZZ_OTHER'] = 'y'
+                rc2, out2 = run(['/venv/bin/bfg9000', 'regenerate', p.bld],
+                                cwd=p.root, env=env2)
+                pr2, aux2 = digest_files(p.bld) if rc2 == 0 else ([], [])
+                events.append({'ev': 'Run', 'ctx': dict(c, cwd='regenerate'),
+                               'exit': rc2, 'primary': pr2, 'aux': aux2,
+                               'out': out2[-300:] if rc2 else ''})
         return events
     finally:
         p.close()
